@@ -1295,7 +1295,7 @@ static int write_numb(void *context, cif_value_tp *numb_value) {
         /* The value is quoted, so output the literal text value, quoted */
         result = write_char(context, numb_value, CIF_TRUE);
     } else if (cif_value_get_text(numb_value, &text) == CIF_OK) {
-        int32_t nchars = write_uliteral(context, text, -1, IS_SEPARATE_VALUES(context));
+        int32_t nchars = write_uliteral(context, text, -1, CIF_WRAP);
         free(text);
         result = ((nchars < 0) ? -nchars : ((nchars > 0) ? 0 : CIF_ERROR));
     } else {
